@@ -39,6 +39,25 @@ def gen(rng, tier):
             reqs.append("C20 workv %s %s" % (wu(a), wu(b)))
         a = val(c02.pat(rng, n, "rand"))
         reqs.append("C20 workv %s %s" % (wu(a), wu(a)))
+    # call shapes: the cost must not depend on how the operands reach mul3 (C20-s1: a squaring fast path keyed on
+    # aliased slices).  Two-operand forms on every size pair, one-operand forms (aliased / pow(2)) on every size.
+    two = ["rr", "vv", "vr", "rv", "assign", "assignv", "checked", "irr", "ivv", "iassign"]
+    one = ["alias", "ialias", "pow2", "pow2v", "ipow2"]
+    k = 0
+    for (n, m) in sizes:
+        for pa in ("rand", rng.choice([p for p, _ in c02.PAIRS])):
+            a = val(c02.pat(rng, n, pa)); b = val(c02.pat(rng, m, "rand"))
+            fs = two if tier == "thorough" else [two[(k + j) % len(two)] for j in range(3)]
+            k += 3
+            for f in fs:
+                reqs.append("C20 workf %s %s %s" % (f, wu(a), wu(b)))
+            for x in (a, b):
+                for f in (one if tier == "thorough" else [one[k % len(one)], one[(k + 2) % len(one)]]):
+                    reqs.append("C20 workf %s %s %s" % (f, wu(x), wu(x)))
+                k += 1
+    for n in small:
+        for f in one[:3]:
+            reqs.append("C20 worksq %s %d %d" % (f, n, rng.randrange(1 << 20)))
     return reqs
 
 def _num(r):
@@ -70,6 +89,7 @@ def special(ctx):
     patterns = [0] + ([1, 2] if tier == "thorough" else [])
     shapes = [(n, n) for n in balanced] + unbalanced
     lines = ["C20 work %d %d %d" % (n, m, p) for p in patterns for (n, m) in shapes]
+    sqlines = ["C20 worksq %s %d %d" % (f, n, p) for p in patterns for n in balanced for f in ("alias", "pow2")]
     wlines = ["C20 wnom %d %d" % (n, m) for (n, m) in shapes]
     impl = [r.split(" # ")[0] if r else r for r in ctx["run_harness"](ctx["bins"]["release"], lines, timeout_per_batch=600)]
     mo = ctx["run_driver"](lines + wlines)
@@ -117,9 +137,34 @@ def special(ctx):
             w = table.get((n, m, p))
             if w is not None and w > n * m:
                 report("failing-input", [n, m], {"work": w, "schoolbook": n * m}, "C20 work %d %d %d" % (n, m, p))
+    # the squaring rows: the same bounds for `&a * &a` and `a.pow(2)` on the dense operand
+    simpl = [r.split(" # ")[0] if r else r for r in ctx["run_harness"](ctx["bins"]["release"], sqlines, timeout_per_batch=600)]
+    smodel = [m for (m, _) in ctx["run_driver"](sqlines)]
+    sq = {}
+    for l, r, m in zip(sqlines, simpl, smodel):
+        _, _, f, n, p = l.split()
+        n, p = int(n), int(p)
+        w = _num(r)
+        if w is None:
+            out["errors"].append("C20 size table: no work count for `%s`: %s" % (l, r))
+            continue
+        sq[(f, n, p)] = w
+        if r != m and len([v for v in viol if v[1]]) < 2:
+            report("correspondence", [n, n], {"impl_work": w, "cost_model": m, "form": f}, l, " no-failing-input-found")
+    for (f, n, p), b in sorted(sq.items()):
+        a = sq.get((f, 2 * n, p))
+        if a is not None:
+            ratios["sq-%s %d->%d p%d" % (f, n, 2 * n, p)] = round(a / b, 4)
+            if 4 * a > 13 * b:
+                report("failing-input", [[n, n], [2 * n, 2 * n]], {"work_n": b, "work_2n": a, "ratio": a / b, "bound": 3.25, "form": f},
+                       "C20 worksq %s %d %d" % (f, 2 * n, p))
+        if n == 4096 and 4 * b >= 4096 ** 2:
+            report("failing-input", [4096, 4096], {"work": b, "schoolbook": 4096 ** 2, "bound": "4*work < 4096^2", "form": f},
+                   "C20 worksq %s 4096 %d" % (f, p))
     out["violations"] = viol[:6]
     out["coverage"] = {"size_table": {"%dx%d p%d" % k: v for k, v in sorted(table.items())},
                        "doubling_ratios": ratios,
                        "nominal_W": {"%dx%d" % k: v for k, v in sorted(wnom.items())},
-                       "size_table_requests": len(lines)}
+                       "squaring_table": {"%s %dx%d p%d" % (f, n, n, p): v for (f, n, p), v in sorted(sq.items())},
+                       "size_table_requests": len(lines) + len(sqlines)}
     return out
